@@ -1215,7 +1215,7 @@ func (vm *VM) xOpCallObject(callee Object, numArgs, flags int) error {
 
 	result, err := callee.Call(args...)
 	if err != nil {
-		return err
+		return vm.calleeError(err)
 	}
 
 	vm.stack[vm.sp-1] = result
@@ -1249,12 +1249,26 @@ func (vm *VM) xOpCallExCaller(callee ExCallerObject, numArgs, flags int) error {
 	}
 
 	if err != nil {
-		return err
+		return vm.calleeError(err)
 	}
 
 	vm.stack[vm.sp-1] = result
 	vm.ip += 2
 	return nil
+}
+
+// calleeError returns the error of a Go callable. A runtime error comes from
+// script code the callable ran on another VM (an Invoker): its trace ends at
+// that code's outermost frame and lacks the position of this call, which throw
+// does not add to an error that already is a runtime error.
+func (vm *VM) calleeError(err error) error {
+	if e, ok := err.(*RuntimeError); ok && e != nil {
+		if e.fileSet == nil {
+			e.fileSet = vm.bytecode.FileSet
+		}
+		e.addTrace(vm.getSourcePos())
+	}
+	return err
 }
 
 func lastAsSlice(vm *VM) ([]Object, error) {
